@@ -883,6 +883,285 @@ def hooked_hedgers(ctx, torch, g, reqs, metas, hreqs=None, hmetas=None):
             ctx.stats["hooks:protocol-model:several"] += 1
 
 
+# ---- Black-Scholes type models fed with a PARTIAL input list ------------------------------------------------------------------------
+# A Black-Scholes module built from a derivative (BlackScholes(derivative) for the four options, WhalleyWilmott(derivative)) takes its
+# arguments as OPTIONAL: a Hedger (or a ModuleOutput feature) may be given a strict subset of `model.inputs()`; what is left out is read
+# from the derivative by the module itself.  On the unchanged library many of these configurations produce no hedge (the (N, T) tensor
+# read from the underlier does not broadcast against the (N, T', 1) features: a shape error, or a result that is not (N, H, T)): that is
+# recorded and skipped, nothing can anticipate.  Whenever a (N, H, T) hedge IS produced it has to be non-anticipative and must not trade
+# at maturity.  Underliers: all those whose volatility / variance changes in time; every column after t of every buffer is changed.
+PI_UNDERLIERS = ["HestonStock", "RoughBergomiStock", "LocalVolatilityStock", "custom_vol_var"]
+PI_KINDS = ["bs", "ww", "bs_as_feature", "ww_as_feature"]
+PI_VOLS = [F(1, 4), F(1, 2), F(3, 4), F(1), F(3, 8)]
+
+
+def gen_market_tv(g, ukind, T=None, N=None):
+    """a market on an underlier with time-varying volatility (strictly positive), T >= 3 unless given"""
+    T = T or g.choice([3, 4, 5, 6])
+    mk = gen_market(g, N=N or g.choice([1, 2, 3]), T=T, primary="LocalVolatilityStock" if ukind == "LocalVolatilityStock" else "HestonStock")
+    mk["primary"] = ukind
+    mk["vol"] = [[g.choice(PI_VOLS) for _ in r] for r in mk["vol"]]
+    mk["var"] = [[v * v for v in r] for r in mk["vol"]]
+    mk["strike"] = g.choice([F(1), F(2)])
+    return mk
+
+
+def perturb_all_future(g, mk, t):
+    """copy of the market changed only at columns > t, and changed at EVERY such column: prices, and volatility / variance"""
+    m2 = perturb(g, mk, t)
+    for p in range(mk["N"]):
+        for j in range(t + 1, mk["T"]):
+            if m2["spot"][p][j] == mk["spot"][p][j]:
+                m2["spot"][p][j] = mk["spot"][p][j] * g.choice([F(1, 2), F(3, 2), F(2)])
+            if m2["vol"][p][j] == mk["vol"][p][j] or m2["vol"][p][j] <= 0:
+                v = g.choice([x for x in PI_VOLS if x != mk["vol"][p][j]])
+                m2["vol"][p][j] = v
+                m2["var"][p][j] = v * v
+    return m2
+
+
+def hedge_checks(ctx, case, base, pert, t, m2, what, prefix):
+    """the two statements of the property on a pair of (N, H, T) hedges (nested lists) of markets that differ after column t only"""
+    T = len(base[0][0])
+    if any(not same_nan(r[T - 1], r[T - 2]) for pth in base for r in pth) or any(not same_nan(r[T - 1], r[T - 2]) for pth in pert for r in pth):
+        ctx.fail(f"the position at the final time index differs from the one held over the last step ({what}): a trade at maturity", case,
+                 key=f"{prefix}:last-column", detail={"hedge": base, "hedge_perturbed_market": pert})
+    for p in range(len(base)):
+        for hh in range(len(base[p])):
+            a, b = base[p][hh][: t + 1], pert[p][hh][: t + 1]
+            if not same_nan(a, b):
+                ctx.fail(f"hedge ratios for steps 0..t change when only prices/variances/volatilities after step t are changed (look-ahead; {what})",
+                         case | {"perturbed_spot": enc_rat(m2["spot"]), "perturbed_vol": enc_rat(m2["vol"]), "perturbed_var": enc_rat(m2["var"])},
+                         key=f"{prefix}:lookahead", detail={"before": a, "after": b, "path": p, "instrument": hh})
+                return
+
+
+def partial_input_lists(ctx, torch, g):
+    from pfhedge.nn import Hedger, BlackScholes, WhalleyWilmott
+    from pfhedge.features import ModuleOutput
+    for rep in range(1 if ctx.tier == "quick" else 4):
+        for ukind in PI_UNDERLIERS:
+            for opt in OPTION_TYPES:
+                for kind in PI_KINDS:
+                    mk = gen_market_tv(g, ukind)
+                    mk["option"] = opt
+                    if opt == "LookbackOption" or opt == "AmericanBinaryOption":
+                        mk["call"] = True          # the closed-form modules of these two exist for calls only
+                    T, N = mk["T"], mk["N"]
+                    d, u = build_x(torch, mk)
+                    a = g.choice([0.25, 1.0, 3.0])
+                    ww = kind.startswith("ww")
+                    try:
+                        full = list((WhalleyWilmott(d, a=a) if ww else BlackScholes(d)).inputs())
+                    except Exception as e:  # noqa
+                        ctx.stats["partial_inputs:model-not-constructible"] += 1
+                        continue
+                    args = full[:-1] if ww else full          # the arguments of the Black-Scholes formula, positional
+                    subsets = [args[:n] for n in range(1, len(args) + 1)]        # the leading subsets (and the full list as the control)
+                    pick = [nm for nm in args if g.chance(0.5)]                    # one more subsequence (arguments shift position: legal, odd)
+                    if pick and pick not in subsets:
+                        subsets.append(pick)
+                    for sub in subsets:
+                        names = sub + (["prev_hedge"] if ww else [])
+                        # without and with autograd for the list that leaves out the volatility only, one of the two otherwise
+                        for grad_on in ((False, True) if sub == args[:-1] else (g.chance(0.5),)):
+                            model = WhalleyWilmott(d, a=a) if ww else BlackScholes(d)
+                            if kind.endswith("_as_feature"):      # the module is read through a ModuleOutput feature of a linear hedger
+                                top = dict(kind="linear", w=[[g.choice(NZ_W)]], b=[g.choice([F(0), F(1, 2)])], relu=False)
+                                hedger = Hedger(model_obj(torch, top), [ModuleOutput(model, list(names))])
+                                msj = {"kind": kind, "a": a, "top": model_json(top)}
+                            else:
+                                hedger = Hedger(model, list(names))
+                                msj = {"kind": kind, "a": a}
+                            t = g.choice([0, T - 3, g.randint(0, T - 2)])
+                            m2 = perturb_all_future(g, mk, t)
+                            case = {"partial_inputs": True, "kind": kind, "model": msj, "inputs": names, "all_inputs": full, "H": 1, "option": opt,
+                                    "primary": ukind, "T": T, "N": N, "spot": enc_rat(mk["spot"]), "vol": enc_rat(mk["vol"]), "var": enc_rat(mk["var"]),
+                                    "strike": rat_str(mk["strike"]), "dt": rat_str(mk["dt"]), "call": mk["call"], "cost": rat_str(mk["cost"]), "t": t,
+                                    "grad_enabled": grad_on}
+                            with torch.set_grad_enabled(grad_on):
+                                inject_x(torch, u, mk)
+                                st, out, mut = call_impl(hedger.compute_hedge, d, [u], watch=[("derivative", d)])
+                                st2, out2 = st, out
+                                if st == "ok":        # (no hedge on the market itself: nothing to compare)
+                                    inject_x(torch, u, m2)
+                                    st2, out2, _ = call_impl(hedger.compute_hedge, d, [u])
+                                    inject_x(torch, u, mk)
+                            if mut:
+                                ctx.mutated("compute_hedge", mut, case)
+                            strict = len(sub) < len(args) or sub != args
+                            produced = st == "ok" and st2 == "ok" and tuple(out.shape) == (N, 1, T) and tuple(out2.shape) == (N, 1, T)
+                            ctx.stats[f"partial_inputs:{'strict-subset' if strict else 'all-inputs'}:{'hedge' if produced else 'no-hedge'}"] += 1
+                            if not produced:
+                                # no (N, H, T) hedge (shape error of the broadcast against the tensors read from the derivative): nothing to anticipate
+                                ctx.case(case | {"outcome": str(out)[:80] if st != "ok" else list(out.shape)}, False, tag="partial_inputs:no-hedge")
+                                continue
+                            ctx.case(case, True, tag="partial_inputs")
+                            ctx.traces += 1
+                            hedge_checks(ctx, case, out.detach().tolist(), out2.detach().tolist(), t, m2,
+                                         f"{kind} model of a {opt} on {ukind} with inputs {names} out of {full}", "compute_hedge:partial-inputs")
+
+
+# ---- user modules whose output ALIASES their input ----------------------------------------------------------------------------------
+# A hedging model is any torch Module.  Legitimate user models return a VIEW of the input they are given (a feature selector
+# `x[..., a:a+H]`, `select`, a strided slice, an expanded column), the input ITSELF (torch.nn.Identity behind a ModuleOutput feature that
+# has the width of the hedge), or modify the input in place before handing (part of) it back.  The positions of such a hedger are fixed by
+# the definition of compute_hedge: step by step, out_j = model(cat(features_j, out_{j-1})), out_{-1} = 0, evaluated here with a fresh
+# input per step and the result copied; all steps at once, out = model(features[:, :-1]).  Compared BITWISE with what compute_hedge
+# returns, besides the last column and the perturbation experiment; both evaluation orders, with and without autograd.
+VIEW_KINDS = ["slice", "select", "stride", "expand", "identity", "inplace_half", "inplace_shift", "inplace_clamp"]
+
+
+def view_fn(kind, a, H):
+    """(the user function on a (N, T', F) input, its description as weights of a linear map (w, b) where there is one)"""
+    if kind == "slice":
+        return lambda x: x[..., a:a + H]
+    if kind == "select":
+        return lambda x: x.select(-1, a).unsqueeze(-1)
+    if kind == "stride":
+        return lambda x: x[..., a::2][..., :H]
+    if kind == "expand":
+        return lambda x: x[..., a:a + 1].expand(*x.shape[:-1], H)
+    if kind == "identity":
+        return lambda x: x
+    if kind == "inplace_half":
+        return lambda x: x.mul_(0.5)[..., a:a + H]
+    if kind == "inplace_shift":
+        def f(x):
+            y = x[..., a:a + H]
+            y.add_(0.25)
+            return y
+        return f
+    if kind == "inplace_clamp":
+        def f(x):
+            x.clamp_(max=1.0)
+            return x[..., a:a + H]
+        return f
+    raise ValueError(kind)
+
+
+def view_linear(kind, a, H, width):
+    """the same map as a linear model of the model language (None if it is not one)"""
+    cols = {"slice": [a + i for i in range(H)], "select": [a], "stride": [a + 2 * i for i in range(H)], "expand": [a] * H,
+            "inplace_half": [a + i for i in range(H)], "inplace_shift": [a + i for i in range(H)]}.get(kind)
+    if cols is None:
+        return None
+    s = F(1, 2) if kind == "inplace_half" else F(1)
+    return dict(kind="linear", w=[[s if c == col else F(0) for c in range(width)] for col in cols],
+                b=[F(1, 4) if kind == "inplace_shift" else F(0)] * H, relu=False)
+
+
+def view_models(ctx, torch, g, reqs, metas):
+    from pfhedge.nn import Hedger
+    from pfhedge.features import ModuleOutput, FeatureList
+
+    class UserModel(torch.nn.Module):
+        def __init__(self, fn):
+            super().__init__()
+            self.fn = fn
+
+        def forward(self, x):
+            return self.fn(x)
+
+    pool = [nm for nm in BASE_FEATURES if nm != "empty"]
+    varying = ["moneyness", "log_moneyness", "underlier_spot", "spot", "time_to_maturity"]
+    for rep in range(4 if ctx.tier == "quick" else 16):
+        for kind in VIEW_KINDS:
+            for stepwise in (True, False):
+                for grad_on in (False, True):
+                    mk = gen_market(g, T=g.choice([4, 5, 6, 8]) if rep == 0 else g.choice([2, 3, 4, 5, 6]))
+                    T, N = mk["T"], mk["N"]
+                    d, u = build_derivative(torch, mk)
+                    thr = g.choice([x for p in mk["spot"] for x in p])
+                    H = 1 if kind == "select" else g.choice([1, 1, 2])
+                    k = g.choice([1, 2, 3])
+                    if not stepwise:
+                        k = H if kind == "identity" else max(k, H)      # identity: the features ARE the positions
+                    if kind == "stride" and not stepwise:
+                        k = max(k, 2 * H - 1)
+                    # the first round: features that move with the price / the time at every step
+                    names = [g.choice(varying if rep == 0 else pool) for _ in range(k)]
+                    width = k + (H if stepwise else 0)
+                    if kind == "stride":
+                        a = g.randint(0, width - (2 * H - 1))
+                    elif kind in ("select", "expand"):
+                        a = g.randint(0, width - 1)
+                    else:
+                        a = g.randint(0, width - H)
+                    if rep == 0 and kind != "identity":
+                        a = 0                                  # a pure feature selector
+                    fn = view_fn(kind, a, H)
+                    sub_ms = None
+                    if kind == "identity" and stepwise:         # the model hands back its input: a ModuleOutput feature of the width of the hedge
+                        sub_ms = gen_linear(g, width, H, relu=False)
+                        if rep == 0:
+                            sub_ms["w"][0][0] = F(1)
+                        feats = [ModuleOutput(model_obj(torch, sub_ms), [feature_obj(torch, nm, mk, thr) for nm in names] + ["prev_hedge"])]
+                        model = torch.nn.Identity()
+                    else:
+                        feats = [feature_obj(torch, nm, mk, thr) for nm in names] + (["prev_hedge"] if stepwise else [])
+                        model = UserModel(fn)
+                    hedger = Hedger(model, feats)
+                    hedge = [u] + extra_hedges(torch, g, mk, H - 1)
+                    t = g.choice([0, max(0, T - 3), g.randint(0, T - 2)])
+                    m2 = perturb_all_future(g, mk, t)
+                    case = {"view_model": kind, "kind": "view:" + kind, "offset": a, "stepwise": stepwise, "H": H, "features": names, "thr": rat_str(thr),
+                            "sub": model_json(sub_ms) if sub_ms else None, "option": mk["option"], "primary": mk["primary"], "T": T, "N": N,
+                            "spot": enc_rat(mk["spot"]), "vol": enc_rat(mk["vol"]), "strike": rat_str(mk["strike"]), "dt": rat_str(mk["dt"]),
+                            "call": mk["call"], "cost": rat_str(mk["cost"]), "t": t, "grad_enabled": grad_on}
+                    with torch.set_grad_enabled(grad_on):
+                        inject(torch, u, mk)
+                        st, out, mut = call_impl(hedger.compute_hedge, d, hedge, watch=[("derivative", d)])
+                        # the definition, with a fresh input per evaluation and every result copied
+                        X = FeatureList([feature_obj(torch, nm, mk, thr) for nm in names]).of(d).get(None).detach().clone()      # (N, T, k)
+                        sub = model_obj(torch, sub_ms) if sub_ms else None
+                        with torch.no_grad():
+                            if stepwise:
+                                prev, steps = X.new_zeros((N, 1, H)), []
+                                for j in range(T - 1):
+                                    inp = torch.cat([X[:, j:j + 1], prev], dim=-1)
+                                    prev = (sub(inp) if sub is not None else fn(inp)).clone()
+                                    steps.append(prev)
+                                exp = torch.cat(steps + [steps[-1]], dim=1).transpose(1, 2)
+                            else:
+                                o = fn(X[:, :-1].clone()).clone()
+                                exp = torch.cat([o, o[:, -1:]], dim=1).transpose(1, 2)
+                        inject(torch, u, m2)
+                        st2, out2, _ = call_impl(hedger.compute_hedge, d, hedge)
+                        inject(torch, u, mk)
+                    if mut:
+                        ctx.mutated("compute_hedge", mut, case)
+                    ctx.stats[f"view_model:{kind}"] += 1
+                    ctx.case(case, True, tag="view_models")
+                    ctx.traces += 1
+                    if st != "ok" or st2 != "ok":
+                        ctx.fail("compute_hedge raised for a user model whose output is a view of its input / its input / its input modified in place",
+                                 case, key="compute_hedge:view-model:error",
+                                 detail={"base": str(out)[:120] if st != "ok" else "ok", "perturbed": str(out2)[:120] if st2 != "ok" else "ok"})
+                        continue
+                    if tuple(out.shape) != (N, H, T) or tuple(out2.shape) != (N, H, T):
+                        ctx.fail("compute_hedge has the wrong shape (user model returning a view of its input)", case, key="compute_hedge:view-model:shape",
+                                 detail=list(out.shape))
+                        continue
+                    base, pert = out.detach().tolist(), out2.detach().tolist()
+                    hedge_checks(ctx, case, base, pert, t, m2, f"user model '{kind}' returning (a view of) its input, "
+                                 f"{'step by step' if stepwise else 'all steps at once'}", "compute_hedge:view-model")
+                    if not same_nan(base, exp.tolist()):
+                        ctx.fail(f"the positions of a hedger whose user model returns (a view of) its input ('{kind}', "
+                                 f"{'step by step' if stepwise else 'all steps at once'}) differ from model(features_j, previous position) evaluated "
+                                 "step by step on fresh inputs", case, key="compute_hedge:view-model:stepwise-semantics",
+                                 detail={"hedge": base, "definition": exp.tolist()})
+                    # the same map in the model language (a linear model with 0 / 1 weights): the Lean model of compute_hedge
+                    lin = view_linear(kind, a, H, width)
+                    if lin is not None:
+                        fj = [feature_json(nm, thr) for nm in names] + ([["prev_hedge"]] if stepwise else [])
+                        tol = any(nm in LOG_FEATURES or nm == "time_to_maturity" for nm in names)
+                        for p in range(N):
+                            reqs.append({"op": "hedge", "market": market_json(mk, p), "features": fj, "model": model_json(lin), "n": T, "h": H})
+                            metas.append((case | {"path": p}, tol, [[base[p][hh][tt] for hh in range(H)] for tt in range(T)]))
+                            ctx.stats["view_model:sent-to-model"] += 1
+
+
 def check(ctx):
     torch, pfhedge = import_impl()
     from pfhedge.nn import Hedger, Naked, BlackScholes, WhalleyWilmott
@@ -1068,6 +1347,12 @@ def check(ctx):
     # construction on the hedger or on its model, state-independent and prev_hedge-consuming inputs
     hreqs, hmetas = [], []
     hooked_hedgers(ctx, torch, g, reqs, metas, hreqs, hmetas)
+    # ---------------- Black-Scholes type models (BlackScholes of the four options, WhalleyWilmott; as the model or as a ModuleOutput feature)
+    # given a strict subset of their inputs, on every underlier with time-varying volatility / variance
+    partial_input_lists(ctx, torch, g)
+    # ---------------- user models returning a view of their input / the input itself / the input modified in place, both evaluation orders,
+    # with and without autograd
+    view_models(ctx, torch, g, reqs, metas)
     try:
         outs = ctx.driver(reqs + hreqs)
     except DriverBroken as e:
